@@ -1,6 +1,6 @@
 (** C17 — incremental updates are append-only and take effect.
     Only statements here; proofs live in theories/C17/Proofs.v. *)
-From OxVerif Require Import Base.Util C04.Model C04.Proofs C17.Model C17.Proofs.
+From OxVerif Require Import Base.Util C04.Model C04.Proofs C17.Model C17.Proofs C17.Filler.
 
 (** every output begins with the previous file's bytes, whatever is replaced *)
 Theorem c17_update_is_append : forall base u, is_prefix base (finish base u).
@@ -86,3 +86,153 @@ Example c17_nonvacuous_reads :
 Proof. exact ex_reads. Qed.
 Example c17_nonvacuous_entry : length (render_entry (CE 1234567 3 true)) = 20%nat /\ 1234567 < 10000000000 /\ 3 < 100000.
 Proof. exact ex_entry_20. Qed.
+
+From Coq Require Import Permutation.
+
+(** * IncrementalFormFiller's own tail assembly ([filler_out], theories/C17/Filler.v): base ++ objects
+    in emission order ++ xref subsections over the lines sorted by object number ++ trailer with
+    /Prev ++ startxref; NO end-of-line guard.  For every base and every fill: *)
+(** the base is a prefix of the output *)
+Theorem c17_filler_is_append : forall base f, is_prefix base (filler_out base f).
+Proof. exact filler_is_append_lemma. Qed.
+Check c17_filler_is_append : forall base f, is_prefix base (filler_out base f).
+Print Assumptions c17_filler_is_append.
+
+(** every written object has a line in the appended section whose offset is the exact byte at which
+    its "N G obj" starts in the output.  No hypothesis on how the base ends: with a base lacking the
+    final EOL the object starts on the %%EOF line and the offset is still that byte (readers address
+    objects by offset) *)
+Theorem c17_filler_xref_covers : forall base f pre o post,
+  ff_objs f = pre ++ o :: post ->
+  let off := len base + len (body_bytes pre) in
+  In (fst (fst o), CE off (snd (fst o)) true) (flatten (group (entries_of (fxref base f))))
+  /\ exists t, skipn (N.to_nat off) (filler_out base f) = obj_bytes o ++ t.
+Proof. exact filler_xref_covers_lemma. Qed.
+Check c17_filler_xref_covers : forall base f pre o post,
+  ff_objs f = pre ++ o :: post ->
+  let off := len base + len (body_bytes pre) in
+  In (fst (fst o), CE off (snd (fst o)) true) (flatten (group (entries_of (fxref base f))))
+  /\ exists t, skipn (N.to_nat off) (filler_out base f) = obj_bytes o ++ t.
+Print Assumptions c17_filler_xref_covers.
+
+(** ... exactly one line per object: the lines are a permutation of the written objects, and with distinct
+    object numbers (the filler deduplicates by id) the line for a number is unique *)
+Theorem c17_filler_xref_perm : forall base f, Permutation (flatten (group (entries_of (fxref base f)))) (entries_of (fchanged base f)).
+Proof. exact filler_xref_perm_lemma. Qed.
+Check c17_filler_xref_perm : forall base f, Permutation (flatten (group (entries_of (fxref base f)))) (entries_of (fchanged base f)).
+Print Assumptions c17_filler_xref_perm.
+
+Theorem c17_filler_xref_count : forall base f, length (flatten (group (entries_of (fxref base f)))) = length (ff_objs f).
+Proof. exact filler_xref_count_lemma. Qed.
+Check c17_filler_xref_count : forall base f, length (flatten (group (entries_of (fxref base f)))) = length (ff_objs f).
+Print Assumptions c17_filler_xref_count.
+
+Theorem c17_filler_xref_unique : forall base f pre o post c,
+  NoDup (fnums f) -> ff_objs f = pre ++ o :: post ->
+  In (fst (fst o), c) (flatten (group (entries_of (fxref base f)))) ->
+  c = CE (len base + len (body_bytes pre)) (snd (fst o)) true.
+Proof. exact filler_xref_unique_lemma. Qed.
+Check c17_filler_xref_unique : forall base f pre o post c,
+  NoDup (fnums f) -> ff_objs f = pre ++ o :: post ->
+  In (fst (fst o), c) (flatten (group (entries_of (fxref base f)))) ->
+  c = CE (len base + len (body_bytes pre)) (snd (fst o)) true.
+Print Assumptions c17_filler_xref_unique.
+
+(** the no-final-EOL case spelled out *)
+Theorem c17_filler_first_offset_no_eol : forall base f o post,
+  ends_eol base = false -> ff_objs f = o :: post ->
+  In (fst (fst o), CE (len base) (snd (fst o)) true) (flatten (group (entries_of (fxref base f))))
+  /\ is_prefix (header_of o) (skipn (length base) (filler_out base f)).
+Proof. exact filler_first_offset_no_eol_lemma. Qed.
+Check c17_filler_first_offset_no_eol : forall base f o post,
+  ends_eol base = false -> ff_objs f = o :: post ->
+  In (fst (fst o), CE (len base) (snd (fst o)) true) (flatten (group (entries_of (fxref base f))))
+  /\ is_prefix (header_of o) (skipn (length base) (filler_out base f)).
+Print Assumptions c17_filler_first_offset_no_eol.
+
+Theorem c17_filler_no_eol_guard : forall base f o post, ff_objs f = o :: post -> exists t, filler_out base f = base ++ header_of o ++ t.
+Proof. exact filler_no_eol_guard_lemma. Qed.
+Check c17_filler_no_eol_guard : forall base f o post, ff_objs f = o :: post -> exists t, filler_out base f = base ++ header_of o ++ t.
+Print Assumptions c17_filler_no_eol_guard.
+
+(** the number after "startxref" is the byte at which the appended "xref" keyword starts *)
+Theorem c17_filler_startxref : forall base f,
+  let xpos := len base + len (body_bytes (ff_objs f)) in
+  (exists t, skipn (N.to_nat xpos) (filler_out base f) = s "xref" ++ nl ++ t) /\
+  (exists h, filler_out base f = h ++ s "startxref" ++ nl ++ dec xpos ++ nl ++ s "%%EOF" ++ nl).
+Proof. exact filler_startxref_lemma. Qed.
+Check c17_filler_startxref : forall base f,
+  let xpos := len base + len (body_bytes (ff_objs f)) in
+  (exists t, skipn (N.to_nat xpos) (filler_out base f) = s "xref" ++ nl ++ t) /\
+  (exists h, filler_out base f = h ++ s "startxref" ++ nl ++ dec xpos ++ nl ++ s "%%EOF" ++ nl).
+Print Assumptions c17_filler_startxref.
+
+(** through C04's merge theorem, as [c17_update_reads_latest] *)
+Theorem c17_filler_reads_latest : forall secs base f n,
+  lookup (file_table (secs ++ [fsection base f])) n =
+  match fnew_def base f n with
+  | Some d => loc_of (Some d)
+  | None => lookup (file_table secs) n
+  end.
+Proof. exact filler_reads_latest_lemma. Qed.
+Check c17_filler_reads_latest : forall secs base f n,
+  lookup (file_table (secs ++ [fsection base f])) n =
+  match fnew_def base f n with
+  | Some d => loc_of (Some d)
+  | None => lookup (file_table secs) n
+  end.
+Print Assumptions c17_filler_reads_latest.
+
+Theorem c17_filler_untouched_unchanged : forall secs base f n,
+  ~ In n (fnums f) ->
+  lookup (file_table (secs ++ [fsection base f])) n = lookup (file_table secs) n.
+Proof. exact filler_untouched_unchanged_lemma. Qed.
+Check c17_filler_untouched_unchanged : forall secs base f n,
+  ~ In n (fnums f) ->
+  lookup (file_table (secs ++ [fsection base f])) n = lookup (file_table secs) n.
+Print Assumptions c17_filler_untouched_unchanged.
+
+(** a rewritten object resolves to the exact byte of its "N G obj" *)
+Theorem c17_filler_rewritten_reads_exact : forall secs base f pre o post,
+  NoDup (fnums f) -> ff_objs f = pre ++ o :: post ->
+  lookup (file_table (secs ++ [fsection base f])) (fst (fst o)) = LOffset (len base + len (body_bytes pre)).
+Proof. exact filler_rewritten_reads_exact_lemma. Qed.
+Check c17_filler_rewritten_reads_exact : forall secs base f pre o post,
+  NoDup (fnums f) -> ff_objs f = pre ++ o :: post ->
+  lookup (file_table (secs ++ [fsection base f])) (fst (fst o)) = LOffset (len base + len (body_bytes pre)).
+Print Assumptions c17_filler_rewritten_reads_exact.
+
+(** histories mixing IncrementalUpdate::finish and the form filler stay extensions of the ORIGINAL file *)
+Theorem c17_edits_are_append : forall es st, is_prefix (fst st) (fst (erun st es)).
+Proof. exact edits_are_append_lemma. Qed.
+Check c17_edits_are_append : forall es st, is_prefix (fst st) (fst (erun st es)).
+Print Assumptions c17_edits_are_append.
+
+Theorem c17_fill_after_edits : forall es f base secs n,
+  let st := erun (base, secs) es in
+  is_prefix base (fst (estep st (EFill f))) /\
+  lookup (file_table (snd (estep st (EFill f)))) n =
+    match fnew_def (fst st) f n with
+    | Some d => loc_of (Some d)
+    | None => lookup (file_table (snd st)) n
+    end.
+Proof. exact fill_after_edits_lemma. Qed.
+Check c17_fill_after_edits : forall es f base secs n,
+  let st := erun (base, secs) es in
+  is_prefix base (fst (estep st (EFill f))) /\
+  lookup (file_table (snd (estep st (EFill f)))) n =
+    match fnew_def (fst st) f n with
+    | Some d => loc_of (Some d)
+    | None => lookup (file_table (snd st)) n
+    end.
+Print Assumptions c17_fill_after_edits.
+
+(** non-vacuity: hypotheses hold on a hand example (emission order 7, 4, 5; base without final EOL) and the
+    model reproduces four outputs of the real [IncrementalFormFiller::fill_many] byte for byte *)
+Example c17_filler_nonvacuous :
+  NoDup (fnums ex_fill) /\ ends_eol (s "%%EOF") = false /\
+  ff_objs ex_fill = [(7, 0, s "B")] ++ (4, 0, s "A") :: [(5, 0, s "F")] /\
+  lookup (file_table ([Classic [(0, [CE 0 65535 false; CE 15 0 true])]] ++ [fsection (s "%%EOF") ex_fill])) 4 = LOffset 22 /\
+  lookup (file_table ([Classic [(0, [CE 0 65535 false; CE 15 0 true])]] ++ [fsection (s "%%EOF") ex_fill])) 1 = LOffset 15 /\
+  filler_code {| fc_base := s "%%EOF"; fc_fill := ex_fill; fc_out := filler_out (s "%%EOF") ex_fill |} = 0.
+Proof. exact ex_filler_hyps. Qed.
